@@ -10,8 +10,9 @@
         close(retentionShutdown)                      (Join waits for this)
     Events of a schedule: the clock advances ([LTick], never backwards), shutdown is requested
     ([LCancelEv]), another client performs a store operation ([LOp]), the loop / the scan in
-    progress makes one move ([LStep]; its flag resolves the one real race of the code: when the
-    minute timer and ctx.Done are both ready the select may take either).  A scan is the step
+    progress makes one move ([LStep]; its flag resolves the races of the code: when a timer — the
+    minute timer of Start, the retentionSleep timer at the end of a DoScan callback — and
+    ctx.Done are both ready the select may take either).  A scan is the step
     machine of [Model/Retention.v] with cutoff = (clock at scan start) - period over the
     mailboxes [enum] hands out.  The clock unit is the second.  No proofs in this file. *)
 From IV Require Import Base.Bytes Model.StoreSpec Model.Retention.
@@ -96,7 +97,7 @@ Definition loop_step (y : lstate) (timer_first : bool) : lstate :=
           {| l_now := l_now y; l_last := l_last y; l_mode := LCheck; l_sys := l_sys y; l_closed := false;
              l_starts := l_starts y; l_done := (l_last y, b) :: l_done y; l_log := l_log y; l_visits := l_visits y |}
       | None =>
-          let s' := sc_step cfg cutoff (l_sys y) in
+          let s' := sc_step cfg cutoff timer_first (l_sys y) in
           {| l_now := l_now y; l_last := l_last y; l_mode := LScan cutoff; l_sys := s'; l_closed := false;
              l_starts := l_starts y; l_done := l_done y;
              l_log := l_log y ++ map (fun e => (e, l_now y)) (skipn (length (s_removed (l_sys y))) (s_removed s'));
@@ -133,7 +134,7 @@ Fixpoint settle (fuel : nat) (y : lstate) : lstate :=
       match l_mode y with
       | LExit => y
       | LWait => if s_cancel (l_sys y) || (l_last y + minute <=? l_now y) then settle f (loop_step y true) else y
-      | _ => settle f (loop_step y true)
+      | _ => settle f (loop_step y false)
       end
   end.
 
